@@ -1,14 +1,28 @@
 import Bclv.Proofs.ParserInv
 import Bclv.Proofs.ParserSync
+import Bclv.Proofs.Grammar6
 /-!
-# C17 — the parser reports what it rejects (partial)
+# C17 — the parser accepts only the grammar, and reports what it rejects
 
-The full property also says *which* sources are accepted (exactly the grammar); that half
-is not a theorem here — it is decided per input by the `mutants` stream, which generates
-sentences of the grammar, damages them (delete/insert/replace/transpose a token at every
-position) and compares acceptance, diagnostics and recovery between the implementation,
-the parser model and an independent recogniser.  What is proved, for every token sequence
-and line table, about the parser model (`Model/Parser.lean`, the port of `parse.go`):
+What is proved, for every token sequence and line table, about the parser model
+(`Model/Parser.lean`, the port of `parse.go`):
+
+* `accepted_is_grammatical` (`Proofs/Grammar1`–`6`): **every accepted token sequence is a
+  sentence of the grammar** (`GProg`, written down in `Grammar1.lean`: `var`, `def`, `eval`,
+  `print` and `bind` statements at toplevel, additionally bare expressions inside blocks, at
+  most one optional `;` after a statement, and the expression grammar `unit (infix unit)*`
+  with `name '='` only in front of a whole expression — the start of an expression
+  statement, of a parenthesis, of an initializer or of another assignment's right side).
+  Proved through every parser function with the weakest-precondition calculus: each
+  function's post-condition says which tokens it consumed and which nonterminal they derive
+  from, given that no error was reported; for the Pratt loop the invariant is "what has been
+  consumed so far is a `cond`, and an assignment is followed by a token without precedence".
+  The converse (every sentence is accepted) does not hold of the language as such — a
+  sentence is also rejected for an undefined or duplicate variable, an invalid literal, more
+  than 1024 variables, an operand over 64 KiB, a bad bind selector — and is decided per
+  input by the `mutants` stream (sentences generated from the grammar, each damaged by one
+  token at every position; implementation, parser model and an independent recogniser
+  must agree).
 
 * `reject_iff_diagnostic_partial`: the result is a rejection exactly when at least one
   diagnostic was written — every rejection is diagnosed, every acceptance is silent;
@@ -70,5 +84,17 @@ example : TE ({ rest := [⟨.EOF, [], [], 3⟩], cur := ⟨.INT, [49], [], 0⟩ 
   constructor
   · rfl
   · unfold Fuel tm; simp
+
+/-- **Accepted ⇒ derivable from the grammar.**  The token kinds up to the first finalizer of
+an accepted token list form a program of the grammar. -/
+theorem accepted_is_grammatical (toks : List Token) (lfs : List Nat) (hend : lastEnd toks = true)
+    (hnf : ∀ t ∈ toks, t.typ ≠ .FAIL) (hok : (parseTokens toks lfs).ok = true) :
+    ∃ body e rest, toks = body ++ e :: rest ∧ e.typ.isEnd = true ∧ GProg (typs body) :=
+  parse_sound toks lfs hend hnf hok
+
+/-- non-vacuity: `print 1` followed by the end token is a program of the grammar -/
+example : GProg [.PRINT, .INT] := by
+  have h : GStmt false (.PRINT :: [.INT]) := GS.print false [.INT] (G.cond _ (G.unit _ (G.atom .INT (by simp [isAtom]))))
+  simpa using GProg.cons _ [] h GProg.nil
 
 end Bclv.C17
